@@ -36,6 +36,7 @@ var c20Items = []c20Item{
 	{Kind: "clause", Text: "p(X) :- q(X).", Pred: "p/1"},
 	{Kind: "clause", Text: "q(c).", Pred: "q/1"},
 	{Kind: "clause", Text: "q(d).", Pred: "q/1"},
+	{Kind: "clause", Text: "q(k) :- q(c).", Pred: "q/1"}, // calls its own predicate DIRECTLY: sees the clauses of other texts if q/1 is multifile
 	{Kind: "clause", Text: "r(e).", Pred: "r/1"},
 	{Kind: "clause", Text: "g(z) --> [].", Pred: "g/3"},
 	{Kind: "dynamic", Text: ":- dynamic(p/1).", Pred: "p/1"},
@@ -481,6 +482,37 @@ func c20Work(w *h.W) {
 			}
 		}
 	}
+	// (3b) multifile accumulation: a predicate declared multifile and given one clause by a first text, then every text of
+	// <= 2 items behind the same declaration, then a third text with one more clause (clauses that call their own
+	// predicate see the clauses of all texts)
+	for _, pred := range []string{"p/1", "q/1"} {
+		var mf c20Item
+		var cls []c20Item
+		for _, it := range c20Items {
+			if it.Kind == "multifile" && it.Pred == pred {
+				mf = it
+			}
+			if it.Kind == "clause" && it.Pred == pred {
+				cls = append(cls, it)
+			}
+		}
+		for _, c1 := range cls {
+			for _, t := range texts {
+				if len(t) == 0 || len(t) > 2 {
+					continue
+				}
+				if !w.Mine() {
+					continue
+				}
+				if w.Expired() {
+					return
+				}
+				second := append([]c20Item{mf}, t...)
+				emit(&c20Case{Loads: []c20Load{{Items: []c20Item{mf, c1}}, {Items: second}}}, len(t)+2)
+				emit(&c20Case{Loads: []c20Load{{Items: []c20Item{mf, c1}}, {Items: second}, {Items: []c20Item{mf, cls[0]}}}}, len(t)+4)
+			}
+		}
+	}
 	// (3) two-load histories: every small text, then every text of <= 2..3 items (redefinition,
 	// multifile accumulation, discontiguity across loads)
 	for _, first := range small {
@@ -511,7 +543,7 @@ func c20Replay(b []byte) (string, string, bool) {
 func init() {
 	h.Register(&h.Check{
 		ID: "C20",
-		Rule: "all program texts that are sequences of <= N items out of 15 (facts and a rule of p/1, q/1, r/1, a grammar rule, dynamic/discontiguous/multifile declarations, initialization goals and directives that OBSERVE the database by writing one character per answer) loaded through Exec and through consult/1 from an in-memory fs.FS; fault enumeration: into every text of <= N-1 items, at every position, each of 6 faults (unbalanced parenthesis, missing operator, unterminated quote, a number as clause, a number as body, stray close) plus the text truncated before its final full stop and the text followed by each of 9 unfinished tokens / comments (quoted atom, string, bracketed comment, 0', a continuation escape, an open argument list, a bare name), each on top of every small earlier load; reload after failure: a faulty text stored as lib.pl and loaded by consult(lib), consult('lib.pl') or :- ensure_loaded(lib), then the repaired text under the same name loaded in each of the three ways; two-load histories: every small text followed by every text of <= 2..3 items. Distinct = texts.",
+		Rule: "all program texts that are sequences of <= N items out of 16 (facts and rules of p/1, q/1, r/1 incl. a clause that calls its own predicate, a grammar rule, dynamic/discontiguous/multifile declarations, initialization goals and directives that OBSERVE the database by writing one character per answer) loaded through Exec and through consult/1 from an in-memory fs.FS; fault enumeration: into every text of <= N-1 items, at every position, each of 6 faults (unbalanced parenthesis, missing operator, unterminated quote, a number as clause, a number as body, stray close) plus the text truncated before its final full stop and the text followed by each of 9 unfinished tokens / comments (quoted atom, string, bracketed comment, 0', a continuation escape, an open argument list, a bare name), each on top of every small earlier load; reload after failure: a faulty text stored as lib.pl and loaded by consult(lib), consult('lib.pl') or :- ensure_loaded(lib), then the repaired text under the same name loaded in each of the three ways; multifile accumulation: a multifile predicate with one clause, then every text of <= 2 items behind the same declaration, then a third text; two-load histories: every small text followed by every text of <= 2..3 items. Distinct = texts.",
 		Explanation: "state = the reference database after the loads so far (per predicate: clauses in order, dynamic/multifile/discontiguous flags); transition = one load on the real interpreter; the reference loader stages the text, fails as a whole on any fault or on clauses separated without discontiguous/1, commits (replace, or append when both definitions are multifile), then runs initialization goals; compared after every load: error or not, the output of directives (at their position, seeing earlier loads only) and initialization goals (after the commit), and the answers of every predicate of the signature in order",
 		Assumptions: []string{"what a directive sees of its OWN text's preceding clauses is not fixed by the property and is never asserted (the observing directive only looks at r/1, which those texts do not define)", "a failing or throwing directive / initialization goal is not generated"},
 		Work:        c20Work,
